@@ -173,9 +173,39 @@ class Prop(common.PropertyCheck):
         for i, dim in enumerate((0.6, 1.0, 0.8)):
             yield dict(base_case, K=8, sizes=[500] * 8, ratio=3.0, nch=2, dim=dim, clust='first', seed=2000 + i)
 
+        # the fit stage alone on exact medians (thousands of bead sets with sizeable autofluorescence)
+        yield {'k': 'fit_sweep', 'n': self.budget(5000, 40000), 'seed': rng.randrange(1 << 30)}
         # the selection rule on its own: subpopulations anywhere between (and piled up at) the range limits of a one-channel sample
         for i in range(self.budget(40, 400)):
             yield {'k': 'selection', 'seed': rng.randrange(1 << 30), 'npop': rng.randrange(1, 9), 'range': rng.choice([1024, 4096, 262144])}
+
+    def run_fit_sweep(self, case):
+        """the fit stage alone on exact medians of many bead sets of the envelope (autofluorescence up to half the dimmest bead): each curve within 10 %"""
+        import warnings
+        r = np.random.RandomState(case['seed'] % (1 << 31))
+        worst, nbad, first = 0.0, 0, None
+        for i in range(case['n']):
+            K = int(r.choice([6, 7, 8]))
+            m, b = r.uniform(0.9, 1.2), r.uniform(1, 5)
+            ratio = r.uniform(2.5, 4.0)
+            top = 10 ** r.uniform(4.6, 5.1)
+            rfi = np.array([top / ratio ** (K - 1 - j) for j in range(K)])
+            af = r.uniform(0.3, 0.5) * math.exp(b) * rfi[0] ** m
+            mef = np.exp(b) * rfi ** m - af
+            with warnings.catch_warnings():
+                warnings.simplefilter('ignore')
+                try:
+                    sc = FlowCal.mef.fit_beads_autofluorescence(rfi, mef)[0]
+                except Exception as e:
+                    return {'sweep_err': 'fit %d raised %s' % (i, type(e).__name__)}
+            span = np.exp(np.linspace(np.log(rfi[0]), np.log(rfi[-1]), 30))
+            dev = float(np.max(np.abs(np.asarray(sc(span)) / (np.exp(b) * span ** m) - 1)))
+            if not dev <= 0.10:
+                nbad += 1
+                if first is None:
+                    first = {'K': K, 'm': float(m), 'b': float(b), 'af': float(af), 'ratio': float(ratio), 'top': float(top), 'dev': dev}
+            worst = max(worst, dev if dev == dev else 9e9)
+        return {'sweep': {'n': case['n'], 'worst': worst, 'nbad': nbad, 'first': first}}
 
     def run_selection(self, case):
         import inspect, struct
@@ -223,6 +253,8 @@ class Prop(common.PropertyCheck):
     def run_impl(self, case):
         if case.get('k') == 'selection':
             return self.run_selection(case)
+        if case.get('k') == 'fit_sweep':
+            return self.run_fit_sweep(case)
         try:
             d, tr = make_beads(case)
         except Exception as e:
@@ -385,6 +417,13 @@ class Prop(common.PropertyCheck):
     def oracle(self, case, impl):
         if case.get('k') == 'selection':
             return self.oracle_selection(case, impl)
+        if case.get('k') == 'fit_sweep':
+            if 'sweep_err' in impl:
+                return impl['sweep_err']
+            sw = impl['sweep']
+            if sw['nbad']:
+                return 'the fit to the exact medians of %d of %d bead sets of the envelope is more than 10 %% off the true conversion (first: %s)' % (sw['nbad'], sw['n'], sw['first'])
+            return None
         if 'harness_err' in impl:
             return 'harness: ' + impl['harness_err']
         tag = 'sizes=%s K=%d nch=%d blank=%s sat=%s unknown=%s order=%s seed=%d' % (case['sizes'], case['K'], case['nch'], case['blank'], case['saturate'], case['unknown'], case.get('order'), case['seed'])
@@ -443,6 +482,8 @@ class Prop(common.PropertyCheck):
         return case.get('stream') == sig.get('stream') and case.get('idx') == sig.get('idx') and case.get('seed') == sig.get('seed')
 
     def model_request(self, case, impl):
+        if case.get('k') == 'fit_sweep':
+            return None
         if case.get('k') == 'selection':
             if 'err' in impl:
                 return None
@@ -472,5 +513,7 @@ class Prop(common.PropertyCheck):
     def nontrivial_key(self, case, impl):
         if case.get('k') == 'selection':
             return ('selection', case['npop'], case['range'], tuple(impl.get('mask', [])))
+        if case.get('k') == 'fit_sweep':
+            return ('fit_sweep', case['n'])
         prof = 'equal' if len(set(case['sizes'])) == 1 else ('mild' if max(case['sizes']) < 1.4 * min(case['sizes']) else 'unequal')
         return (case['K'], case['nch'], case['blank'], case['saturate'], tuple(map(tuple, case['unknown'])), prof, case['stat'], case['clust'])
